@@ -5,7 +5,8 @@ ran before it is a disagreement, and - through the expectation each query op car
 
 A session is a JSON-able list of ops (this is also the replay format):
     ["datastore", name, storage]            a further Datastore ("main" = Impl.ds always exists); storage memory | sqlite
-    ["create", ds, bucket id, events]       events = [[offset from 2020-01-01T00:00Z in us, duration in us, data], ...]
+    ["create", ds, bucket id, events(, hostname)]   events = [[offset from 2020-01-01T00:00Z in us, duration in us, data], ...];
+                                            hostname of the bucket's metadata, default "h1"
     ["delete", ds, bucket id]
     ["query", ds, text, expectation(, [query name, start, end of the query period as offsets in us])]
                                             default name / period: "q-name", 2020-01-01Z .. 2020-01-02Z; expectation = {} | {"names": [bucket ids]} (value when all of them
@@ -97,7 +98,7 @@ class Session:
             return None
         ds = self.dss[op[1]]
         if op[0] == "create":
-            impl.create_bucket(ds, op[2], [tuple(e) for e in (op[3] if len(op) > 3 else [])])
+            impl.create_bucket(ds, op[2], [tuple(e) for e in (op[3] if len(op) > 3 else [])], *op[4:5])
             return None
         if op[0] == "delete":
             impl.delete_bucket(ds, op[2])
